@@ -719,10 +719,17 @@ func (s *Sim) yield(t *Task) {
 			if names == nil {
 				names = callerNames()
 			}
-			hit := false
-			for _, f := range names {
-				if strings.Contains(f, sp.site) {
-					hit = true
+			hit := true
+			for _, want := range strings.Split(sp.site, "&") {
+				found := false
+				for _, f := range names {
+					if strings.Contains(f, want) {
+						found = true
+						break
+					}
+				}
+				if !found {
+					hit = false
 					break
 				}
 			}
@@ -772,7 +779,8 @@ type sitePause struct {
 // ArmPauseAt arms one task pause that is bound to a place in the code instead
 // of a step count ("event-biased" placement of the slow-task fault): the first
 // task (of node, if not nil) that reaches a scheduling point while a function
-// whose qualified name contains site is on its call stack, after skip such
+// whose qualified name contains site (several names joined by "&": all of
+// them) is on its call stack, after skip such
 // scheduling points have gone by, is paused for d of fake time. The harness
 // draws skip and d from the tape, so the run stays a function of the tape.
 func (s *Sim) ArmPauseAt(site string, node *Node, skip int, d time.Duration) {
@@ -1342,6 +1350,14 @@ func (s *Sim) epsOf(seq int64) time.Duration {
 	}
 	return time.Duration(1 + seq%epsMod)
 }
+
+// PreemptInLocks reports whether, in this run, acquiring a lock is followed by
+// a scheduling point, so that a task can be descheduled while it holds the
+// lock (TryLock by others then fails, lock hand-offs are observable). Real
+// goroutines can be preempted anywhere; half of the runs model that (out-of-
+// band workload variant, never for variant 0), the other half keep critical
+// sections without a synchronisation operation inside atomic, which is cheaper.
+func (s *Sim) PreemptInLocks() bool { return s.Tape != nil && (s.Tape.Variant>>21)&1 == 1 }
 
 // TimerEpsAfter returns the offset that the k-th timer (k >= 1) created by
 // simulated code after this call will get, without consuming it, so that a
